@@ -450,7 +450,7 @@ pub fn run(args: Args) {
     }
 
     // ---- random multisets, sizes 2..=5, all permutations
-    let nrand: u64 = args.tier.pick(40_000, 4_000_000);
+    let nrand: u64 = args.tier.pick(40_000, 3_000_000);
     {
         let cas = &cas;
         run.parallel(workers, |w, n| {
